@@ -16,13 +16,18 @@ TV = "translation_validation"
 
 CLAIMS = {
     "C01": dict(level=PV, ref="§7 C01, §12.1",
-        text="44 kernel-checked theorems, none open, about a hand-written executable model of Metadata.__lt__, "
+        text="61 kernel-checked theorems (25 in Properties/C01, 36 in Properties/C01Ext), none open, about a hand-written executable model of Metadata.__lt__, "
              "Cell.__lt__, IncrementalCell.__lt__, the Triangle constructor and the public operations: strict total "
              "order on canonical metadata, sortedness, permutation, input-order independence for EVERY permutation "
              "(ofCells_perm_invariant, ofCells_coords_perm_invariant), contiguity and order of slices, and closure of "
              "the canonical form (sorted, one cell class, every cell satisfies the constructor's date rules) under "
-             "every chain of operations: run_canonical over ten basic operations and run2_canonical over all 34 "
-             "modelled public operations (to_incremental, to_cumulative, aggregate, summarize, merge, coalesce, "
+             "every chain of operations: run_canonical over ten basic operations, run2_canonical over 34 and "
+             "run3_canonical over 59 modelled public operations (the 34 plus derive_fields / derive_metadata / replace / filter with "
+             "FUNCTION arguments - proved for every callable, the expression language only feeds the correspondence -, "
+             "| & - ^, sum, t[i], loose_period_merge, shift_origin, drop_off_diagonals, TriangleSlice conversions, "
+             "make_pred_triangle_with_init, weight_geometric_decay, the Berquist-Sherman adjustments, disaggregate_development, "
+             "disaggregate, and the wide / long / array-frame / Matrix reader-after-writer composites; fromWideRows_canonical etc.: "
+             "EVERY accepted table yields a canonical triangle) - the 34 being (to_incremental, to_cumulative, aggregate, summarize, merge, coalesce, "
              "add_statics, period_merge, make_right_triangle, make_right_diagonal, fill_forward_gaps, backfill, full "
              "clip, 3-index getitem, split, slices, convert_currency, disaggregate_experience, "
              "accident_quarter_to_policy_year, blend, thin, bootstrap, moment_match, JSON round trip, ...), by "
@@ -162,14 +167,20 @@ CLAIMS = {
              "in Python with rtol 1e-9).",
         tech="Lean 4 theorems over regenerated rule tables (decide +kernel) and over Q + differential correspondence"),
     "C11": dict(level=PV, ref="§7 C11",
-        text="40 kernel-checked theorems, none open, about clip (six inclusive bounds incl. development lag in "
-             "month/day/timedelta units), filter, select, right_edge, slices, split, 3-index getitem and extract: "
+        text="85 kernel-checked theorems, none open, about clip (six inclusive bounds incl. development lag in "
+             "month/day/timedelta units), filter, select, right_edge, slices, split, EVERY branch of Triangle.__getitem__ "
+             "(int, positional slice, 3-index forms with date / open-ended slice / junk components, arity refusals), "
+             "TriangleSlice (constructor refusal of several slices, its 2-index __getitem__, utils/slice.py), "
+             "is_right_edge_ragged and extract: sliceOfCells_eq/_multi, sliceGetItem_eq_filter, sliceItemSpec_model, getItemSpec_model, "
+             "pyIndex_spec, isRightEdgeRagged_iff, "
              "clip_eq_filter_conj, clip_inclusive, clip_complement_partition, filter_unchanged_sorted (a sub-list of a "
              "sorted list is not reordered by the constructor), slices_partition, split_partition, getItem_eq_filter, "
              "rightEdge_spec (max evaluation date per row, one per slice and period), select_keeps_cells, "
              "extract_length_order. Correspondence: dumps for bounds drawn from the triangle's own dates/lags, their "
              "+-1 day / +-1 month neighbours and out-of-range values, every subset of fields and detail keys; "
-             "complementary clips must partition on the implementation.",
+             "complementary clips must partition on the implementation; integer AND float lag bounds with evaluation dates on any "
+             "day of the month; a TriangleSlice stream (direct construction, triangle_to_slice, chained indexing). Anchor coverage "
+             "(tools/anchor_coverage.py): every anchored statement and branch arc of C11 is executed by the quick run.",
         note=COMMON_NOTE + "Month lags are floats in the code and exact rationals in the model: lag bounds are the "
              "triangle's own lags (bit-identical) and lags +-1, kept where float and exact comparison agree.",
         tech="Lean 4 proof (filter/sublist/partition algebra on sorted lists) + differential correspondence"),
@@ -348,6 +359,7 @@ def main():
     root = ["import Bermuda.Model.Basic", "import Bermuda.Model.Order", "import Bermuda.Model.Triangle",
             "import Bermuda.Model.Ops", "import Bermuda.Model.DateUtils", "import Bermuda.Model.Json"]
     root += [f"import Bermuda.Properties.{c['property_id']}" for c in checks]
+    root.insert(7, "import Bermuda.Properties.C01Ext")
     open(os.path.join(ROOT, "lean", "Bermuda.lean"), "w").write("\n".join(root) + "\n")
     print("claimed:", [c["property_id"] for c in checks])
 
